@@ -54,6 +54,8 @@ structure Mach where
   usedKeys : List String := []
   usedCount : Nat := 0
   lastHead : Option Nat := none
+  /-- the implementation reported buffered bytes after its last operation -/
+  implPend : Bool := false
 deriving Inhabited
 
 structure Pipe where
@@ -254,6 +256,9 @@ def monitorReadFail (s : St) (m : Mach) (p : Pipe) (res : String) (consumed : Bo
   if m.peer != 0 && p.id == m.peer && p.clean && !m.readFailed && m.readIdx < peer.flushedCnt then
     s ← monitor s "clean-stream-rejected" s!"mach {m.id}: message #{m.readIdx} was sent completely and unaltered but the read failed ({res})"
   return (s, { m with readFailed := true })
+
+def noteObs (m : Mach) (obs : List String) : Mach :=
+  { m with implPend := (kvNat? obs "hl").getD 0 + (kvNat? obs "bl").getD 0 > 0 }
 
 def dirty (s : St) (pid : Nat) : St := setPipe s { getPipe s pid with clean := false }
 
@@ -512,11 +517,20 @@ def step (s : St) (line : String) : IO St := do
     let m := getMach s ((nat? id).getD 0)
     let len := (kvNat? rest "len").getD 0
     let msg : Msg := { len := len, val := parseVal len ((kv? rest "val").getD "0") }
+    let mut m := m
     let c0 := m.snd.cs
+    -- monitor (trace only): refusal exactly when oversized or something is still buffered
+    let mustRefuse := len > maxPayload || m.implPend
+    let s ← if res0 == "ok" && mustRefuse then
+        monitor s "write-accepted" s!"mach {m.id}: WriteMessage accepted {len} bytes {if m.implPend then "while a record is buffered" else "(too long)"}"
+      else if res0 != "ok" && !mustRefuse then
+        monitor s "write-refused" s!"mach {m.id}: WriteMessage refused {len} bytes with nothing buffered ({res0})"
+      else pure s
+    m := noteObs m obs
     match writeMessage m.snd msg with
     | .ok snd' =>
       let mut s ← if res0 == "ok" then pure s else mismatch s s!"write mach={m.id}: model=ok impl={res0}"
-      let mut m := { m with snd := snd' }
+      m := { m with snd := snd' }
       if res0 == "ok" then
         let hk := (kv? res "hk").getD "?"
         let bk := (kv? res "bk").getD "?"
@@ -540,9 +554,9 @@ def step (s : St) (line : String) : IO St := do
       let mut s ← if model == res0 then pure s else mismatch s s!"write mach={m.id}: model={model} impl={res0}"
       s := { s with refusedWrites := s.refusedWrites + 1 }
       if res0 == "ok" then
-        s ← monitor s "write-accepted" s!"mach {m.id}: WriteMessage accepted {len} bytes ({model} expected)"
+        m := { m with sent := m.sent.push msg, pend := some (len, 0, 0) }
       s ← checkObs s m obs "write"
-      return s
+      return setMach s m
   | "flush" :: id :: rest =>
     let s := { s with ops := s.ops + 1, flushes := s.flushes + 1 }
     let m := getMach s ((nat? id).getD 0)
@@ -576,7 +590,7 @@ def step (s : St) (line : String) : IO St := do
     | none =>
       if implN != 0 then s ← monitor s "flush-accounting" s!"mach {m.id}: Flush with nothing pending returned {implN}"
     s ← checkObs s m obs "flush"
-    return setMach s m
+    return setMach s (noteObs m obs)
   | "read" :: id :: rest =>
     let s := { s with ops := s.ops + 1 }
     let m := getMach s ((nat? id).getD 0)
@@ -744,7 +758,7 @@ def step (s : St) (line : String) : IO St := do
       s ← mismatch s s!"cwrite {who}: model n={total} err={err} pl={p.buf.length}, impl n={implN} err={implErr} pl={(kv? res "pl").getD "?"}"
     -- monitor: the count returned is the number of plaintext bytes on the wire
     let all := chunks.foldl (fun a c => a + c.len) 0
-    let wire := match budget0 with | some b => b | none => all + chunks.length * (encHeaderSize + macSize)
+    let wire := (kvNat? res "pl").getD 0   -- bytes that actually reached the pipe
     let rec plain (cs : List Msg) (w : Nat) : Nat :=
       match cs with
       | [] => 0
